@@ -70,7 +70,12 @@ def _iroot(n: int, k: int):
     return None
 
 
+FRACPOW = [0]   # number of non-integer powers taken since last reset (pint computes those in float)
+
+
 def _spow(a, e: Fraction):
+    if e.denominator != 1:
+        FRACPOW[0] += 1
     if isinstance(a, Irr):
         return Irr(a.approx ** float(e), "pow")
     if e.denominator == 1:
@@ -297,7 +302,9 @@ def parse_unit(s: str):
             modifiers[k.strip()] = to_number(v)
     else:
         conv = value
+    FRACPOW[0] = 0
     v = evaluate(conv)
+    fracpow = FRACPOW[0] > 0
     keys = list(v.units)
     dims = [k.startswith("[") and k.endswith("]") for k in keys]
     if keys and all(dims):
@@ -316,6 +323,7 @@ def parse_unit(s: str):
     return {
         "kind": "unit", "name": name, "symbol": symbol, "aliases": aliases, "scale": v.scale,
         "ref": v.units, "is_base": is_base, "conv": kind, "modifiers": modifiers, "text": s,
+        "fracpow": fracpow,
     }
 
 
